@@ -23,7 +23,7 @@ func init() {
 		NeedU1:      true,
 		NeedU2:      true,
 		Rules: []func(*Ctx){ruleC13InsertOnly, ruleC13NoOtherWrites, ruleC13NothingOnlyWhenAbsent, ruleC02FreshKeyOnlyIfStored, ruleC02SuccessIsStoreBool, ruleC02RecordMatchesKey, ruleC14LoserAdoptsStored,
-			ruleC14ParentReresolved, ruleC19OneSessionFactory, ruleC14StaticKeyIsStable, ruleC02CryptoKeyAsGiven, ruleC17ClientPerRegion, ruleC05PolicyDurationsVerbatim, deferredCloseSparesReturnedRule("C14", pkgApp, pkgInt), ruleC08EveryHandoutCounted, ruleC01LatestFetchedUnderOwnID, ruleC14LoadedRecordsNotModified, optionsCommuteRule("C14", pkgDynV1, pkgDynV2, pkgApp), ruleC04NewKeysStampedNow, ruleC01NoValidityGateOnRead, ruleC13ConsistentReads, ruleC13StoreResult, ruleC01ProvenanceDecrypt, ruleC13FieldFidelity},
+			ruleC14ParentReresolved, ruleC19OneSessionFactory, ruleC14StaticKeyIsStable, ruleC02CryptoKeyAsGiven, ruleC17ClientPerRegion, ruleC05PolicyDurationsVerbatim, deferredCloseSparesReturnedRule("C14", pkgApp, pkgInt), ruleC08EveryHandoutCounted, ruleC01LatestFetchedUnderOwnID, ruleC14LoadedRecordsNotModified, optionsCommuteRule("C14", pkgDynV1, pkgDynV2, pkgApp), ruleC04NewKeysStampedNow, ruleC01NoValidityGateOnRead, ruleC13ConsistentReads, ruleC13StoreResult, ruleC01ProvenanceDecrypt, ruleC13FieldFidelity, ruleC01CallerBuffersImmutable},
 	})
 }
 
